@@ -76,8 +76,8 @@ type Sink struct {
 }
 
 type OwnConfig struct {
-	ModelingPath string               // import path of package modeling
-	MeshFields   map[*types.Var]bool  // storage fields of modeling.Mesh
+	ModelingPath string                   // import path of package modeling
+	MeshFields   map[*types.Var]bool      // storage fields of modeling.Mesh
 	InDomain     func(*ssa.Function) bool // functions with bodies that are analysed when reached
 	Roots        []*ssa.Function
 	// EscapeHatch: slice/map types through which code outside the repository can hold mesh storage.
